@@ -30,7 +30,14 @@ vec_basic generate_fdiff_weights_vector(const vec_basic &grid,
         throw SymEngineException(
             "generate_fdiff_weights_vector: the grid must not be empty");
     const unsigned len_g = numeric_cast<unsigned>(grid.size());
-    const unsigned len_w = len_g * (max_deriv + 1);
+    // len_g * (max_deriv + 1) must not wrap: every index j + k * len_g is unsigned
+    const unsigned long long len_w64
+        = static_cast<unsigned long long>(len_g)
+          * (static_cast<unsigned long long>(max_deriv) + 1ULL);
+    if (len_w64 > 0xffffffffULL)
+        throw SymEngineException(
+            "generate_fdiff_weights_vector: grid size * (max_deriv + 1) is too large");
+    const unsigned len_w = static_cast<unsigned>(len_w64);
     RCP<const Basic> c1, c4, c5;
     c1 = one;
     c4 = sub(grid[0], around);
